@@ -141,6 +141,23 @@ func (u *Upgrader) Upgrade(w http.ResponseWriter, r *http.Request, responseHeade
 		return u.returnError(w, r, http.StatusBadRequest, "websocket: unsupported version: 13 not found in 'Sec-Websocket-Version' header")
 	}
 
+	// The response headers that belong to the handshake are recognized below
+	// by their canonical name, however the application spelled the key (for
+	// example "Sec-WebSocket-Extensions").
+	for k := range responseHeader {
+		if ck := http.CanonicalHeaderKey(k); ck != k && (ck == "Sec-Websocket-Extensions" || ck == "Sec-Websocket-Protocol") {
+			h := make(http.Header, len(responseHeader))
+			for k, vs := range responseHeader {
+				if ck := http.CanonicalHeaderKey(k); ck == "Sec-Websocket-Extensions" || ck == "Sec-Websocket-Protocol" {
+					k = ck
+				}
+				h[k] = append(h[k], vs...)
+			}
+			responseHeader = h
+			break
+		}
+	}
+
 	if _, ok := responseHeader["Sec-Websocket-Extensions"]; ok {
 		return u.returnError(w, r, http.StatusInternalServerError, "websocket: application specific 'Sec-WebSocket-Extensions' headers are unsupported")
 	}
